@@ -229,6 +229,8 @@ def _component_values(r):
         out["tree"] = r["tree"]
     for k, v in (r.get("deep") or {}).items():
         out[k] = v
+    if "xasm_returned_tree" in r:
+        out["xasm_returned_tree"] = r["xasm_returned_tree"]
     for fmt, t in (r.get("texts") or {}).items():
         out["text:" + fmt] = t["d"]
     return out
